@@ -26,6 +26,7 @@ ALL_CONFIGS = ("default", "pu", "ip", "ip+pu", "utf16", "pattern", "alloc")
 # thorough tier: every per-configuration rule is run on all seven feature configurations, except where the rule's
 # anchors do not exist in a configuration by design (one line of reason each; confirmed on the unchanged tree).
 THOROUGH_SKIP = {
+    **{("twin", "check_surrsib", c): "Utf16Input exists only with the utf16 feature" for c in ("default", "pu", "ip", "ip+pu", "pattern", "alloc")},
     ("scm", "check", "utf16"): "the utf16 build forms no byte-literal instructions (optimizer::form_literal_bytes is cfg'd out); "
                                "the instruction-set floor was counted on the default build",
     ("extra", "check_asciiguard", "utf16"): "byte-set lowerings are cfg'd out of the utf16 build",
